@@ -72,20 +72,20 @@ add("C03", "vcheck", "fault_enumeration", CRASH,
     "Same engine as C02: the exact canonical dump of every reopened crash image (both openers) must equal the exact dump of the live database taken before or after the interrupted step (query or multi-query transaction, committed or rolled back).",
     "The before/after dumps come from the live database and are themselves validated against the reference model at every step. Needs hooks H1/H2.", "DESIGN 3/C03")
 add("C04", "vcheck", "exploration", MB,
-    "Generated storage programs (up to 60 / 400 operations, sizes around the 16-byte header, 5% invalid operations) on MemoryStorage, FileStorage and FileStorageMemoryMapped against a reference map index->bytes, compared after every step; optimize must leave no unused space; reopen must preserve everything.",
+    "Generated storage programs (up to 60 / 400 operations, sizes around the 16-byte header, 5% invalid operations) on MemoryStorage, FileStorage and FileStorageMemoryMapped against a reference map index->bytes, compared after every step; optimize must leave no unused space; reopen must preserve everything. Quick also replays the fuzz seed corpus; thorough adds a 150 s libFuzzer campaign (fuzz_storage_ops, same oracle in the target).",
     "Uses the VerifStorage wrapper (hook H1) because Storage is crate-private. move_at semantics (copy, then zero the non-overlapped remainder of the source) is the contract DbVec relies on and the storage unit tests document.", "DESIGN 3/C04")
 add("C32", "vcheck", "fault_enumeration", "fault injection through a public StorageData wrapper, positions and histories generated by proptest, reference model for the behaviour after the fault",
     "Generated histories on DbImpl<Faulty<FileStorage>>: one generated storage write/resize call inside one generated query fails (clean or short write); the query must return Err and leave no effect, later queries must conform to the reference model and survive close + reopen with both file variants. The listed known findings (one root cause) are met on most fault positions; they are counted and the campaign continues.",
     "Only write/resize calls made inside queries are failed (never Drop/reopen). Failure symptoms are classified coarsely (six classes) because they share one root cause, see known_findings.json.", "DESIGN 3/C32, appendix D")
 
 add("C07", "vcheck", "exploration", "structured mutation of valid database files generated by proptest (record-aware truncation, header/root/word overwrites with boundary values, bit flips, damaged recovery logs) with the oracle in isolated child processes under an allocation cap",
-    "Valid files from generated histories, damaged by 1-2 structured mutations and an optional damaged recovery log, opened with Db::new, DbFile::new and DbMemory::new and read completely; any panic, abort or single allocation request above 64 MiB is a violation attributed to the image; calls that do not answer within 3 s are counted as undecided. Listed known findings are counted and the campaign continues behind them.",
+    "Valid files from generated histories, damaged by 1-2 structured mutations and an optional damaged recovery log, opened with Db::new, DbFile::new and DbMemory::new and read completely; any panic, abort or single allocation request above 64 MiB is a violation attributed to the image; calls that do not answer within 3 s are counted as undecided. Listed known findings are counted and the campaign continues behind them. Quick also replays the fuzz seed corpus and saved artifacts; thorough adds a 300 s libFuzzer campaign (fuzz_open_db).",
     "Enormous allocation = one request above 64 MiB (inputs are a few KiB). Non-termination is not judged (the property does not list it). Panic signatures are keyed by source file + enclosing function + message, process-level ones by the first repository frame of the backtrace.", "DESIGN 3/C07")
 add("C20", "vcheck", "exploration", RT,
-    "Arbitrary values of every built-in AgdbSerialize implementation, of the query types (generated by the history grammar, nested conditions to depth 4) and of a corpus of 12 derived user types: deserialize(serialize(x)) equals x (Debug text and re-serialized bytes) and serialized_size equals the number of bytes.",
+    "Arbitrary values of every built-in AgdbSerialize implementation, of the query types (generated by the history grammar, nested conditions to depth 4) and of a corpus of 12 derived user types: deserialize(serialize(x)) equals x (Debug text and re-serialized bytes) and serialized_size equals the number of bytes. Thorough adds a 90 s libFuzzer campaign (fuzz_serialize_rt).",
     "Non-UTF-8 paths and IPv6 socket addresses with a non-zero flow label are outside the textual encodings the codec documents and are not generated.", "DESIGN 3/C20")
 add("C21", "vcheck", "exploration", "mutation-based property testing (proptest) of valid encodings plus random bytes, oracle in isolated child processes under an allocation cap",
-    "Valid encodings of every C20 type mutated (truncation, boundary length words, byte sets, bit flips, junk) and random byte strings, fed to 54 deserializers / typed conversions: each call must return Ok or Err.",
+    "Valid encodings of every C20 type mutated (truncation, boundary length words, byte sets, bit flips, junk) and random byte strings, fed to 54 deserializers / typed conversions: each call must return Ok or Err. Thorough adds a 150 s libFuzzer campaign (fuzz_deserialize).",
     "Enormous allocation = one request above 64 MiB. Endless loops over zero-sized elements are undecided, not violations.", "DESIGN 3/C21")
 add("C22", "vcheck", "exploration", RT,
     "A corpus of 12 derived DbType/DbElement types (optional fields in every position) with arbitrary field values stored singly and in batches, read back through both documented routes, one element updated through its db_id: values equal, only the updated element changes, typed searches return only that type.",
@@ -148,6 +148,8 @@ manifest = {
     "engines": [
         {"name": "vcheck", "path": "/verif/harness/vcheck", "serves_properties": sorted([k for k, v in CHECKS.items() if v[0] == "vcheck"]),
          "kind_free_text": "proptest-driven generators + reference models + crash/fault engines; one binary, one sub-command per property"},
+        {"name": "fuzz", "path": "/verif/fuzzing", "serves_properties": ["C04", "C07", "C20", "C21"],
+         "kind_free_text": "cargo-fuzz / libFuzzer targets whose semantic oracle (the property's own) is inside the target; seed corpus and saved artifacts are replayed in the quick tier, bounded campaigns run in the thorough tier (DESIGN.md appendix H)"},
         {"name": "raftsim", "path": "/verif/harness/raftsim", "serves_properties": sorted([k for k, v in CHECKS.items() if v[0] == "raftsim"]),
          "kind_free_text": "deterministic simulator around the unmodified agdb_server/src/raft.rs (virtual clock substituted at build time), schedules generated by proptest and by bounded exhaustive enumeration"},
     ],
